@@ -114,6 +114,24 @@ def gen_cases(tier, seed):
             lines.append("%s %s" % (rng.choice(["add", "add", "pop"]), v))
             lines.append("q " + " ".join(hexs(rng.choice(pool)) for _ in range(3)))
         cases.append(("r%d" % k, "\n".join(lines), "random"))
+    # distinct strings of equal length with the SAME full 64-bit hash (the hash is a polynomial in the bytes, so a
+    # colliding pair stays one under a common prefix / suffix and under a common shift of all bytes): only the
+    # final string comparison tells them apart
+    CA, CB = "sqpqjslgoipqkm", "gjkjqgoskrkion"
+    assert py_hash(CA) == py_hash(CB) and CA != CB
+    for k in range(120 if tier == "quick" else 1500):
+        t = rng.randint(-5, 5)
+        a = "".join(chr(ord(c) + t) for c in CA)
+        b = "".join(chr(ord(c) + t) for c in CB)
+        pre = rng.choice(["", "/", "/tmp/", "/home/u/.config/"])
+        suf = rng.choice(["", ".txt", "/x"])
+        pool = [pre + a + suf, pre + b + suf, pre + a, "z"]
+        lines = ["new %d" % rng.choice([0, 1, 2, 60])]
+        qq = "q " + " ".join(hexs(v) for v in pool)
+        for _ in range(rng.randint(4, 40)):
+            lines.append("%s %s" % (rng.choice(["add", "add", "pop"]), hexs(rng.choice(pool))))
+            lines.append(qq)
+        cases.append(("k%d" % k, "\n".join(lines), "collision"))
     # hash and hash-cache sequences: a growable buffer is appended to, truncated (by 0, 1, 2, ... characters, the
     # boundary of the cached-hash invalidation) and re-hashed; its view is also used as the key of set queries
     for k in range(300 if tier == "quick" else 3000):
@@ -176,7 +194,7 @@ def main(rep):
         rep.cov["exhaustive"] = False
         rep.cov["rule"] = ("all add/pop sequences of length %d over 3 strings colliding in 2- and 4-bucket tables (size guess 0 and 1), "
                            "counts of all 3 strings and is_empty observed after every step; random 50-400 step sequences over pools of "
-                           "random byte strings (bytes >= 128 included), size guesses {0,1,2,5,60}; hash and hash-cache sequences. "
+                           "random byte strings (bytes >= 128 included), size guesses {0,1,2,5,60}; hash and hash-cache sequences; pairs of distinct strings with the same full 64-bit hash. "
                            "non-trivial = contains at least one removal; distinct by script text") % (6 if rep.tier == "quick" else 7)
         rep.cov["samples"] = [cases[0][1].split("\n")[:8], cases[-1][1].split("\n")[:8]]
         validated = 0
